@@ -545,6 +545,13 @@ def corruptions(spec):
                     j = [q for q in tgt if s["edges"][q][0] in inner or s["edges"][q][1] in inner][0]
                     s["edges"][j][2]["flow"] += 1
                     out.append(("non-conserving flow, nothing ignored", s))
+                    if kw.get("weight_type", float) is int:
+                        # the same imbalance of one unit on a flow of magnitude 2*10^9 (exact integers): relatively tiny, still not a flow
+                        s = copy.deepcopy(spec)
+                        for q in tgt:
+                            s["edges"][q][2]["flow"] = int(s["edges"][q][2]["flow"]) * 2000000000
+                        s["edges"][j][2]["flow"] += 1
+                        out.append(("non-conserving flow, nothing ignored (large magnitude)", s))
         else:
             tgt = [i for i, n in enumerate(spec["nodes"]) if n[0] not in ign and "flow" in n[1]]
             if tgt:
